@@ -69,6 +69,8 @@ pub(crate) fn impl_cbrt_uint_scale(
     }
 
     let result_digits = integer_digits.nth_root(3);
+    // true if the integer cube root is exact (nothing was lost to truncation)
+    let root_is_exact = &result_digits * &result_digits * &result_digits == *integer_digits;
     let result_digits_count = count_decimal_digits_uint(&result_digits);
     debug_assert!(result_digits_count > precision.get());
 
@@ -95,7 +97,7 @@ pub(crate) fn impl_cbrt_uint_scale(
     }
 
     let insig_data = rounding::InsigData::from_digit_and_lazy_trailing_zeros(
-        rounding_data, insig_digit0, || { trailing_digits.iter().all(Zero::is_zero) }
+        rounding_data, insig_digit0, || { root_is_exact && trailing_digits.iter().all(Zero::is_zero) }
     );
 
     // lowest digit to round
